@@ -99,6 +99,50 @@ class Extern:
         return '<extern %s>' % self.name
 
 
+def desugar_struct_objects(tree):
+    """`NAME = struct.Struct(FMT)` bound once at module or class level: NAME.unpack(x) / NAME.unpack_from(x) / NAME.pack(..) /
+    NAME.size are rewritten to struct.unpack(FMT, x) / ... / struct.calcsize(FMT), which is what they mean.  The summaries then
+    see one spelling of a struct access.  (A name that is rebound anywhere in the module is left alone.)"""
+    fmts, stores = {}, {}
+    for n in ast.walk(tree):
+        if isinstance(n, ast.Assign):
+            for t in n.targets:
+                for el in (t.elts if isinstance(t, (ast.Tuple, ast.List)) else [t]):
+                    if isinstance(el, ast.Name):
+                        stores[el.id] = stores.get(el.id, 0) + 1
+                        v = n.value
+                        if len(n.targets) == 1 and el is t and isinstance(v, ast.Call) and ast.unparse(v.func) in ('struct.Struct', 'Struct') and len(v.args) == 1 and not v.keywords:
+                            fmts[el.id] = v.args[0]
+        elif isinstance(n, (ast.AugAssign, ast.AnnAssign, ast.For, ast.FunctionDef, ast.ClassDef, ast.arg)):
+            nm = getattr(getattr(n, 'target', None), 'id', None) or getattr(n, 'name', None) or getattr(n, 'arg', None)
+            if isinstance(nm, str):
+                stores[nm] = stores.get(nm, 0) + 1
+    fmts = {k: v for k, v in fmts.items() if stores.get(k) == 1}
+    if not fmts:
+        return tree
+
+    def struct_attr(name):
+        return ast.Attribute(value=ast.Name(id='struct', ctx=ast.Load()), attr=name, ctx=ast.Load())
+
+    class T(ast.NodeTransformer):
+        def visit_Call(self, n):
+            self.generic_visit(n)
+            f = n.func
+            if isinstance(f, ast.Attribute) and isinstance(f.value, ast.Name) and f.value.id in fmts and f.attr in ('unpack', 'unpack_from', 'pack', 'pack_into', 'iter_unpack'):
+                new = ast.Call(func=struct_attr(f.attr), args=[clone(fmts[f.value.id])] + n.args, keywords=n.keywords)
+                return ast.copy_location(new, n)
+            return n
+
+        def visit_Attribute(self, n):
+            self.generic_visit(n)
+            if isinstance(n.value, ast.Name) and n.value.id in fmts and n.attr == 'size' and isinstance(n.ctx, ast.Load):
+                return ast.copy_location(ast.Call(func=struct_attr('calcsize'), args=[clone(fmts[n.value.id])], keywords=[]), n)
+            return n
+    tree = T().visit(tree)
+    ast.fix_missing_locations(tree)
+    return tree
+
+
 def set_parents(tree):
     for n in ast.walk(tree):
         for c in ast.iter_child_nodes(n):
@@ -132,6 +176,7 @@ class Index:
                             tree = ast.parse(raw, p)
                     except SyntaxError as e:
                         raise AnalysisError('cannot parse %s: %s' % (p, e))
+                    tree = desugar_struct_objects(tree)
                     set_parents(tree)
                     self.mods[rel] = Mod(rel, p, tree, raw.decode('utf-8', 'replace'))
         for m in self.mods.values():
